@@ -115,6 +115,20 @@ def run(prop, tier, seed, only=None, with_mc=True):
             jobs.append((ad._mod, cfg["id"], tier, seed, with_leaves, out))
             meta_by_path[out] = (ad, cfg)
     gc_cache()
+    # the MC runs do not depend on the implementation: start them now, 4 at a time, next to recording/validation
+    mc_futs = []
+    mc_pool = None
+    if with_mc:
+        mc_pool = cf.ThreadPoolExecutor(4)
+        idx = mc_index()
+        for mod, ent in sorted(idx.items()):
+            if only and ent.get("env") not in only and mod not in only:
+                continue
+            for c in ent.get(tier, ent.get("quick", [])) if tier == "thorough" else ent.get("quick", []):
+                if prop not in c.get("props", []):
+                    continue
+                wd = os.path.join(WORK, f"mc-{prop}-{os.getpid()}", mod + "-" + c["cfg"])
+                mc_futs.append((mod, c, mc_pool.submit(tlc.run_mc, mod, c["cfg"], wd, max(2, NCPU // 4), c.get("timeout", 1800))))
     rec_fail = []
     traces = []
     nworkers = max(1, NCPU)
@@ -138,21 +152,14 @@ def run(prop, tier, seed, only=None, with_mc=True):
         for path, res in ex.map(_validate, vjobs):
             results[path] = res
     log(f"[{prop}] TLC validated {len(results)} traces in {time.time() - t1:.1f}s")
-    # MC models
+    # MC models (started at the beginning, see below) - collect
     mcs = []
-    if with_mc:
+    if mc_futs:
         t2 = time.time()
-        idx = mc_index()
-        for mod, ent in sorted(idx.items()):
-            if only and ent.get("env") not in only and mod not in only:
-                continue
-            for c in ent.get(tier, ent.get("quick", [])) if tier == "thorough" else ent.get("quick", []):
-                if prop not in c.get("props", []):
-                    continue
-                wd = os.path.join(WORK, f"mc-{prop}-{os.getpid()}", mod + "-" + c["cfg"])
-                r = tlc.run_mc(mod, c["cfg"], wd, timeout=c.get("timeout", 1800))
-                mcs.append((mod, c, r))
-        log(f"[{prop}] {len(mcs)} MC runs in {time.time() - t2:.1f}s")
+        for mod, c, fut in mc_futs:
+            mcs.append((mod, c, fut.result()))
+        mc_pool.shutdown()
+        log(f"[{prop}] {len(mcs)} MC runs finished {time.time() - t2:.1f}s after trace validation")
     import shutil
 
     shutil.rmtree(os.path.join(WORK, f"tv-{prop}-{os.getpid()}"), ignore_errors=True)
